@@ -214,6 +214,7 @@ type ConnTap struct {
 	RetiredSeqs  [2]map[uint64]bool   // seqs (of the peer's CIDs) retired by side d
 	forged       [2]uint64            // packets forged so far on behalf of side d (ForgeShort)
 	RetirePrior  [2]uint64
+	retireDeliv  [2]map[uint64]bool // RETIRE_CONNECTION_ID sequence numbers delivered TO side d (intact)
 	Closes       [2][]Frame
 	Counts       map[string]int64
 	BytesEmitted [2]int64
@@ -265,6 +266,7 @@ func (w *Wire) newConn(clientAddr string, version uint32, dcid, scid []byte) *Co
 		c.IssuedCIDs[d] = map[uint64][]byte{}
 		c.ResetTokens[d] = map[uint64][]byte{}
 		c.RetiredSeqs[d] = map[uint64]bool{}
+		c.retireDeliv[d] = map[uint64]bool{}
 		c.awaitAck[d] = map[uint64]time.Duration{}
 		c.maxDeliv1RTT[d] = -1
 		for s := 0; s < 3; s++ {
@@ -853,6 +855,25 @@ func (c *ConnTap) frame(dir Dir, kind Kind, pi *PacketInfo, f *Frame) {
 		if f.RetirePriorTo > c.RetirePrior[dir] {
 			c.RetirePrior[dir] = f.RetirePriorTo
 		}
+		// ---- C16 wire layer: the IDs side dir has issued and not yet seen retired (RETIRE_CONNECTION_ID
+		// delivered to it before this emission, or below its own Retire Prior To) never exceed the
+		// active_connection_id_limit its peer advertised
+		if tp := c.peerTP(dir); tp != nil {
+			limit := tp.Int(TPActiveConnIDLimit, 2)
+			active := 0
+			if !c.retireDeliv[dir][0] && c.RetirePrior[dir] == 0 {
+				active++ // the handshake connection ID (sequence number 0)
+			}
+			for seq := range c.IssuedCIDs[dir] {
+				if seq != 0 && seq >= c.RetirePrior[dir] && !c.retireDeliv[dir][seq] {
+					active++
+				}
+			}
+			c.Counts["c16_issued_vs_limit_checks"]++
+			if uint64(active) > limit {
+				c.anomaly("C16", "C16|wire|more-ids-issued-than-peer-limit", "%s has issued %d connection IDs that the peer has not retired (NEW_CONNECTION_ID seq %d), the peer's active_connection_id_limit is %d", dir, active, f.Seq, limit)
+			}
+		}
 	case f.Type == FtRetireConnID:
 		c.RetiredSeqs[dir][f.Value] = true
 	case f.Type == FtNewToken:
@@ -1050,6 +1071,9 @@ func (w *Wire) Delivered(d *DatagramInfo, mod Mod, now time.Duration) {
 		}
 		for j := range p.Frames {
 			f := &p.Frames[j]
+			if f.Type == FtRetireConnID {
+				c.retireDeliv[d.Dir.Other()][f.Value] = true
+			}
 			if f.Type == FtAck || f.Type == FtAckECN {
 				rcv := d.Dir.Other()
 				if int64(f.LargestAcked) > c.AckLargestTo[rcv][space] {
@@ -1169,4 +1193,13 @@ func (c *ConnTap) StreamHighWater(sender Dir, id uint64) uint64 {
 		return s.HighWater
 	}
 	return 0
+}
+
+// RegisterForgedCID tells the observer about a connection ID that a forged NEW_CONNECTION_ID frame issued
+// on behalf of side issuer, so that the datagrams the other side addresses to it are still attributed
+// to this connection and opened.
+func (c *ConnTap) RegisterForgedCID(issuer Dir, cid []byte) {
+	c.w.mu.Lock()
+	defer c.w.mu.Unlock()
+	c.cids[issuer.Other()][string(cid)] = true
 }
